@@ -66,7 +66,7 @@ enum Kind {
 }
 
 #[derive(Clone, Debug)]
-struct Plan {
+pub(crate) struct Plan {
     kind: Kind,
     sid: u64,
     key: u64,
@@ -75,7 +75,7 @@ struct Plan {
     read_buf: usize,
 }
 
-fn plan_streams(rng: &mut Rng, thorough: bool) -> Vec<Plan> {
+pub(crate) fn plan_streams(rng: &mut Rng, thorough: bool) -> Vec<Plan> {
     let n = rng.range(1, 3);
     let (mut nb, mut nc, mut ns) = (0u64, 0u64, 0u64);
     let mut v = vec![];
@@ -406,11 +406,11 @@ async fn server_conn(h: History, sh: Shared, conn: Connection, plans: Arc<Vec<Pl
 // one case
 // ---------------------------------------------------------------------------------------------
 
-struct CaseResult {
-    evs: Vec<sim::Ev>,
-    fails: Vec<(String, String)>,
+pub(crate) struct CaseResult {
+    pub(crate) evs: Vec<sim::Ev>,
+    pub(crate) fails: Vec<(String, String)>,
     /// both applications finished all planned transfers without any error
-    complete: bool,
+    pub(crate) complete: bool,
     client_done: Option<bool>,
     server_done: Option<bool>,
     server_saw_conn: bool,
@@ -426,7 +426,7 @@ struct CaseResult {
 
 /// Canonical application-level summary of a run (no timing, no chunk boundaries): per endpoint and stream the
 /// bytes written / read, EOF, shutdown, stream errors; terminal error kinds; completion.
-fn summary(r: &CaseResult) -> std::collections::BTreeMap<String, String> {
+pub(crate) fn summary(r: &CaseResult) -> std::collections::BTreeMap<String, String> {
     let mut m = std::collections::BTreeMap::<String, u64>::new();
     let mut out = std::collections::BTreeMap::<String, String>::new();
     for ev in &r.evs {
@@ -454,11 +454,16 @@ fn expected_dirs(plans: &[Plan]) -> u64 {
 }
 
 async fn one_case(profile: Profile, adv_rng: Rng, plans: Vec<Plan>, idle: Duration, budget: Duration) -> CaseResult {
+    one_case_cfg(profile, adv_rng, plans, idle, budget, PairCfg::default()).await
+}
+
+/// the same case with an explicit `PairCfg` (C20: a qlog collector installed on both endpoints)
+pub(crate) async fn one_case_cfg(profile: Profile, adv_rng: Rng, plans: Vec<Plan>, idle: Duration, budget: Duration, cfg: PairCfg) -> CaseResult {
     let h = History::new();
     let sh: Shared = Arc::new(std::sync::Mutex::new(Check::default()));
     let plans = Arc::new(plans);
     let t0 = tokio::time::Instant::now();
-    let pair = Pair::build(Box::new(FaultAdversary::new(adv_rng, profile.clone())), PairCfg::default().idle_timeout(idle)).await;
+    let pair = Pair::build(Box::new(FaultAdversary::new(adv_rng, profile.clone())), cfg.idle_timeout(idle)).await;
     if std::env::var("GMQ_C02_DEBUG").is_ok() {
         pair.net.record(true);
     }
